@@ -115,7 +115,7 @@ func VerifC05_KVTxn(st any) {
 	s := st.(*Store)
 	maxKV, keyLen, nops := 1, 1, 2
 	if verifrt.Thorough() {
-		maxKV, keyLen = 2, 2
+		maxKV, keyLen = 2, 1 // (2 keys of 2 bytes: more than 1.4 million paths, did not finish in 90 minutes)
 	}
 	m, idx := vKVPreState(s, maxKV, keyLen, false, 2)
 	pre := vCloneModel(m)
